@@ -13,7 +13,7 @@ from qvm.utils import format_number
 LEAN_MODULE = 'QbeeModel.Props.C15'
 REQUIRED = ['pd_no_quotes', 'pd_roundtrip', 'pd_total', 'parts_in_source_order', 'readMany_from_part',
             'read_sequence', 'read_past_end', 'restore_to_part', 'restore_label_target', 'restore_plain_rewinds',
-            'restore_minus_one_was_wrong']
+            'restore_minus_one_was_wrong', 'restore_label_general', 'restore_label_without_group_had_no_index']
 ALPHA = 'a1 ,":'
 
 
@@ -29,7 +29,8 @@ def enc_items(items):
 def spec_items(text):
     """The property's sentences, written independently of parse_data: split at commas outside quotes; an item that is
     (blanks) "quoted" (blanks) is kept verbatim; other items are trimmed; blank items are Empty.  Returns None where the
-    property does not say (a quote inside an unquoted item, text after a closing quote, unclosed quote)."""
+    property does not say (a quote inside an unquoted item, text after a closing quote).  A last item whose quote is never
+    closed is a quoted item that runs to the end of the statement: kept verbatim."""
     fields, cur, inq = [], '', False
     for ch in text:
         if ch == '"':
@@ -41,8 +42,12 @@ def spec_items(text):
         else:
             cur += ch
     fields.append(cur)
+    unclosed = None
     if inq:
-        return None
+        last = fields.pop().lstrip(' \t')
+        if not last.startswith('"') or '"' in last[1:] or last == '"':
+            return None                      # (a lone quote at the end of the statement: the grammar rejects it; not judged)
+        unclosed = last[1:]
     items = []
     for f in fields:
         t = f.strip(' \t')
@@ -56,6 +61,8 @@ def spec_items(text):
             if '"' in t:
                 return None
             items.append(t)
+    if unclosed is not None:
+        items.append(unclosed)
     return items
 
 
@@ -348,7 +355,7 @@ def run(chk):
                     ri = str(code.get_data_label_index(canon))
                 except ValueError:
                     ri = 'none'
-                reqs_l.append('lidx ' + core.enc_str(canon) + ' ' + ' '.join(evtoks))
+                reqs_l.append('ltgt ' + core.enc_str(canon) + ' ' + ' '.join(evtoks))
                 exp_l.append(ri)
         # run
         r = real.run_bytes(st[2])
